@@ -117,15 +117,29 @@ func unmarshallPack(def Definition, resolvers entity.Resolvers, data []byte) ([]
 	}
 	// decoding yields fresh operation objects on every read (as JSON decoding does) for
 	// operation types that can be cloned; the harness doubles are immutable and shared
+	// the author is resolved by id through the resolvers when there are some (the cache
+	// hands in its identity cache), as the real decoder does; decoded operations point to
+	// the resolved author
+	author := rec.author
+	if resolvers != nil && rec.author != nil {
+		resolved, err := entity.Resolve[identity.Interface](resolvers, rec.author.Id())
+		if err != nil {
+			return nil, nil, err
+		}
+		author = resolved
+	}
 	ops := make([]Operation, len(rec.ops))
 	for i, op := range rec.ops {
 		if cl, ok := op.(interface{ VHClone() Operation }); ok {
 			ops[i] = cl.VHClone()
+			if author != rec.author {
+				ops[i].setAuthor(author)
+			}
 		} else {
 			ops[i] = op
 		}
 	}
-	return ops, rec.author, nil
+	return ops, author, nil
 }
 
 // MarshalJSON (M-PACK write side): the serialisation of a pack is an opaque blob that
